@@ -81,6 +81,7 @@ class Extrema(FragmentTask):
         ctx = ex.ctx
         I, R = z3.IntSort(), z3.RealSort()
         nl = self.nlevels
+        ctx.ghost["minmax_semantics"] = True
         NB = [z3.Int(f"nb{lv}") for lv in range(nl)]
         for n in NB:
             ctx.assume(n >= 1)
